@@ -39,8 +39,10 @@
 //!
 //! Sensitivity probes (mutrun, patches under /verif/fixes/probes/): see PROBES at the end of this header.
 //! PROBES:
-//!  A C01-probe-limit-forgets-offset.diff (limit_pushdown pushes `fetch` without adding `skip`)        → see report
-//!  B C01-probe-pushdown-below-left-join.diff (push_down_filter treats the right side of LEFT JOIN as preserved) → see report
+//!  A C01-probe-limit-forgets-offset.diff (limit_pushdown pushes `fetch` without adding `skip`): DETECTED by `check C01 quick`
+//!    after 130 evaluations (`… ORDER BY k3, k4 LIMIT 1 OFFSET 1` returned 0 rows instead of 1)
+//!  B C01-probe-pushdown-below-left-join.diff (push_down_filter treats the right side of LEFT JOIN as preserved): DETECTED by
+//!    `check C01 quick` (`… LEFT JOIN t0 r1 ON … WHERE r1.s = r1.s` returned the NULL-extended rows: 3 rows instead of 1)
 use proptest::prelude::*;
 use vf_df::{ErrClass, Outcome as DfOutcome, Variant, repro_script, run_sql};
 use vf_kit::engine::*;
@@ -826,7 +828,7 @@ impl Property for C01 {
         refsql::case_strategy(&gen_config(tier))
     }
     fn budget(&self, tier: Tier) -> Budget {
-        Budget::new(tier.pick(4_000, 300_000), tier.pick(8, 16)).min_nontrivial(tier.pick(800, 50_000)).discard_cap(0.4).case_timeout(60).shrink(3000, 180)
+        Budget::new(tier.pick(4_000, 300_000), tier.pick(8, 16)).min_nontrivial(tier.pick(800, 50_000)).discard_cap(0.4).case_timeout(tier.pick(120, 300)).shrink(3000, 180)
     }
     fn rule(&self) -> String {
         "tables t0..t2(id,a,b,s,f,p) with NULL-heavy small domains + a query built type-directed from a choice tape (refsql::gen); \
